@@ -96,6 +96,7 @@ impl Val {
     pub fn short(&self) -> String {
         match self {
             Val::Long { tag, len, blob } => format!("<{}{}:{}>", if *blob { "blob" } else { "text" }, tag, len),
+            Val::Text(s) if s.starts_with("ERR:") => s.clone(),
             Val::Text(s) if s.len() > 24 => format!("'{}..'[{}]", trunc(s, 16), s.len()),
             Val::Blob(b) if b.len() > 12 => format!("x[{}]", b.len()),
             v => v.sql(),
